@@ -66,7 +66,7 @@ fn scripts(tier: &str, rng: &mut Rng) -> Vec<(String, Script)> {
         }
     }
     // single faults on the first retransmission as well (after dropping the original)
-    for (d, k) in [(Dir::AtoB, Kind::CH), (Dir::BtoA, Kind::SH), (Dir::BtoA, Kind::SHD), (Dir::AtoB, Kind::FIN)] {
+    for (d, k) in [(Dir::AtoB, Kind::CH), (Dir::BtoA, Kind::SH), (Dir::BtoA, Kind::SHD), (Dir::AtoB, Kind::FIN), (Dir::BtoA, Kind::FIN), (Dir::BtoA, Kind::CCS), (Dir::AtoB, Kind::CKE), (Dir::BtoA, Kind::CERT)] {
         v.push(("single".into(), mk(format!("{} {:?} dropped twice", dname(d), k), Expect::None, Expect::None,
             vec![single(d, k, 0, Act::Drop), single(d, k, 1, Act::Drop)], 4300)));
     }
